@@ -25,7 +25,17 @@ def fold_check(chk, rule, site, qn, dim_expr, base_name, what, use_axis_to_dim=F
     for ndim in (1, 2, 3, 4):
         for axis in (0, -1):
             if ndim == 1:
-                continue  # per-axis quantization of a vector is rejected
+                # per-axis quantization of a vector is rejected on the symmetric route (SymmetricQuantizer raises ValueError for 1-D bases);
+                # the affine route accepts it: the reduction list is then empty, and torch reads `dim=[]` as EVERY dimension
+                if what == "affine" and axis == 0:
+                    try:
+                        got1 = scales.fold_dims(dim_expr, 1, 0, base_name)
+                    except AnalysisError:
+                        got1 = None
+                    if got1 == []:
+                        chk.bad(rule, site, qn, "rank-1 reduction over dim=[]", f"{qn}: for a rank-1 base the reduction dims evaluate to [] - which amin / amax read as all dimensions: one range for the whole vector instead of one per element of the kept axis",
+                                "quantize_weight(tensor([.5, 1., 2., 4., 1.2, 100.]), qint4, axis=0): a single scale; changing the last element changes the codes of all the others (locality)")
+                continue
             # only the (ndim, axis) instances that can take this path
             feasible = True
             for c, truth, _ in (path.conds if path is not None else []):
